@@ -48,7 +48,9 @@ def run(chk):
     # 2. proofs on the regenerated model
     pr = chk.proofs(MODULE, trusted_extra=[
         "xlate/cfun.py + xlate/reldist.py: clang-14 JSON AST -> Lean Int terms with explicit wrap at every cast/arith node",
-        "harness: the five helpers' source text extracted via clang source ranges, compiled with gcc, run on the same inputs as the generated Lean"]) if translated else None
+        "harness: the five helpers' source text extracted via clang source ranges, compiled with gcc, run on the same inputs as the generated Lean",
+        "Model/Reorder.lean: hand-written queue model tied to the extracted real queue helpers by correspondence (harness/reorder.c)",
+        "hypothesis Windowed (no arrival 2048 or more ahead of the oldest missing picture) is a property of the pipeline's pool sizes: exercised by the long real streams, not proved"]) if translated else None
     # 3. correspondence + implementation oracle
     src = gen_harness_source()
     hsrc = os.path.join(C.CACHE, "gen_src")
@@ -114,6 +116,55 @@ def run(chk):
     names = ["EbInterPrediction.c:get_relative_dist_enc", "EbAdaptiveMotionVectorPrediction.c:get_relative_dist",
              "EbPictureDecisionProcess.c:get_relative_dist", "EbModeDecisionConfigurationProcess.c:get_relative_dist",
              "EbDecParseFrame.c/EbDecUtils.h:get_relative_dist"]
+    # ---- circular reorder queue: REAL get_reorder_queue_* code vs the Lean queue model, streams >> depth 2048
+    from . import pktz_units as U
+    q = U.run_reorder_unit(chk)
+    chk.cov["queue_unit"] = {"ops": q["ops"], "entries_per_op": q["entries"], "kinds": q["hist"], "disagreements": len(q["disagreements"]),
+                             "oracle_failures": len(q["oracle_failures"])}
+    chk.cov["evaluations"] += q["ops"]
+    chk.cov["distinct_nontrivial"] += q["ops"]
+    for smp in q["samples"][:2]:
+        chk.sample(smp)
+    # ---- long real streams: beyond 2^order_hint_bits (=128) in quick, beyond the 2048-deep reorder queues in thorough
+    streams = [dict(n=300, lv=4, ip=-1, content=4), dict(n=200, lv=3, ip=37, content=2)]
+    if chk.tier == "thorough":
+        streams += [dict(n=2200, lv=4, ip=-1, content=4), dict(n=2600, lv=5, ip=255, content=1), dict(n=5000, lv=3, ip=-1, content=2)]
+
+    def one(st):
+        a = {"w": 128, "h": 64, "n": st["n"], "cfg.enc_mode": 8, "cfg.hierarchical_levels": st["lv"], "cfg.intra_period_length": st["ip"],
+             "recon": 1, "decode": 1, "content": st["content"], "seed": chk.seed * 1000 + st["n"], "watchdog": 1200 + st["n"]}
+        return st, C.run_e2e(a, timeout=2400 + 2 * st["n"])
+    long_fail = []
+    long_stats = []
+    for st, r in C.run_parallel(one, streams, workers=2):
+        n = st["n"]
+        pts = [p["pts"] for p in r["PKT"]]
+        mism = [c for c in r["CMP"] if "MISMATCH" in c[1]]
+        ok = (not r["crashed"] and not r["hung"] and len(pts) == n and pts == list(range(n)) and len(r["DEC"]) == n and not mism
+              and len(r["CMP"]) == n and not r["ERR"])
+        long_stats.append({"frames": n, "levels": st["lv"], "intra_period": st["ip"], "packets": len(pts), "decoded": len(r["DEC"]),
+                           "recon_eq_decode": len(r["CMP"]) - len(mism), "ok": ok})
+        if not ok:
+            first_bad = next((i for i, (x, y) in enumerate(zip(pts, range(n))) if x != y), None)
+            long_fail.append("stream of %d frames (128x64, preset 8, levels %d, intra period %d): rc=%s hung=%s packets=%d decoded=%d "
+                             "first out-of-order packet index=%s recon/decode mismatches=%s errors=%s\nargs: %s\n" %
+                             (n, st["lv"], st["ip"], r["rc"], r["hung"], len(pts), len(r["DEC"]), first_bad, mism[:3], r["ERR"][:3], r["argv"]))
+    chk.cov["long_streams"] = long_stats
+    chk.cov["evaluations"] += len(streams)
+    chk.cov["distinct_nontrivial"] += len(streams)
+    chk.cov["rule"] += ("; + reorder-queue unit (real queue code vs Lean model, %d arrival orders of %d entries, depth 2048) + %d real long-stream "
+                        "encodes (packets in pts order, decode == recon for every frame)" % (q["ops"], q["entries"], len(streams)))
+    chk.sample(long_stats[0])
+    if long_fail:
+        chk.violation("long stream misbehaves on the REAL encoder/decoder\n" + "\n".join(long_fail), tag="long")
+    if q["oracle_failures"]:
+        i, txt = q["oracle_failures"][0]
+        chk.violation("REAL reorder queue code (EbPacketizationProcess.c get_reorder_queue_*) breaks in-order delivery on a windowed arrival order\n%s\n"
+                      "input line: %s\n" % (txt, q["input_lines"][i][:4000]), tag="queue")
+    elif q["disagreements"] and not (spec_fail or not translated or not pr.ok):
+        i, cl, ml = q["disagreements"][0]
+        chk.violation("reorder queue: Lean model and real code disagree although the real output satisfies the in-order oracle\nop %d\nC:    %s\nLean: %s\n"
+                      % (i, cl, ml), tag="queuecorr", found_input=False)
     if spec_fail:
         l, j, d = spec_fail[0]
         chk.violation("order-hint distance helper %s returns a value that is not the signed distance modulo the period\n"
